@@ -792,8 +792,8 @@ class MultiStream(Stream):
             data[phase_index, IDs_index] = other_data[phase_index, IDs_index]
             if remove: other_data[phase_index, IDs_index] = 0.
         else:
+            other_phase_index = self.imol.get_phase_index(other.phase) # An undefined phase raises before any change
             data[:] = 0.
-            other_phase_index = self.imol.get_phase_index(other.phase)
             if phase is ... or phase_index == other_phase_index:
                 data[other_phase_index, IDs_index] = other_data[IDs_index]
                 if remove: other_data[IDs_index] = 0.
